@@ -47,14 +47,18 @@ PROPS["C02"] = {
 PROPS["C04"] = {
     "level": "proof",
     "theorems": ["C04_inserted_exactly_once", "C04_relative_order_stable", "C04_placed_between_origins", "C04_placed_right_of_origin",
-                 "C04_placed_left_of_right_origin", "C04_deleted_never_visible_again"],
+                 "C04_placed_left_of_right_origin", "C04_deleted_never_visible_again",
+                 "C04_split_changes_no_unit", "C04_squash_changes_no_unit", "C04_split_then_squash_is_identity", "C04_squash_conditions_are_necessary"],
     "theorem_kinds": {
         "C04_inserted_exactly_once": "unbounded, any list, any item",
         "C04_relative_order_stable": "unbounded (per replica: every later state)",
         "C04_placed_between_origins": "unbounded",
         "C04_deleted_never_visible_again": "unbounded (through any delivery and any delete set)",
+        "C04_split_changes_no_unit": "unbounded (every block, every split point; strings valid UTF-8 split at character boundaries)",
+        "C04_squash_changes_no_unit": "unbounded (every pair of blocks satisfying the conditions of try_squash)",
+        "C04_squash_conditions_are_necessary": "unbounded (no block at all has the concatenated unit view unless every condition holds)",
     },
-    "rule": HIST_RULE + "; C04 oracle on every state of every replica: each unit id occurs once in its list, and the relative order of every pair of visible units agrees with every earlier observation of that pair on ANY replica of the history",
+    "rule": HIST_RULE + "; C04 oracle on every state of every replica: each unit id occurs once in its list, and the relative order of every pair of visible units agrees with every earlier observation of that pair on ANY replica of the history; at the end of every history the unit-level view of every replica's full state (id, origin, right origin, parent where transmitted, content of every unit) equals the unit-level view of the updates as first emitted (block splits and squashes are invisible)",
     "trusted_base": ["cross-replica agreement of the order (same order on every replica) is the tombstone-level convergence of C01: proved for the finite universes of Crdt/YataFinite.v, otherwise established by the correspondence only"],
     "modelled_not_verified": ["block split / squash (units of one block are consecutive by construction of units_of_item; the implementation's splice is compared through the unit-expanded dump)"],
     "assumptions": [],
